@@ -48,6 +48,7 @@ type ccmFam struct {
 func init() { families["ccm"] = func() hx.Family { return &ccmFam{} } }
 
 func (f *ccmFam) Reset(r *hx.Run) {
+	f.w.close()
 	f.w = newWorld()
 	f.accepted = map[string]int{}
 	f.black = map[uint64]bool{}
